@@ -238,7 +238,11 @@ func runC07(c *Ctx) {
 					c.Check(ok, "C07.send-guard", fnName(f), key, P.Pos(ci.Pos()), "data-free send: "+why)
 					continue
 				}
-				sendGuarded(c, f, ci, key, fSCacl)
+				// judged from the function that owns the response: an unexported helper that only transmits
+				// its parameter is analysed inlined into each of its callers
+				for _, rt := range sendRoots(P, f, unwrap(arg), 0) {
+					sendGuarded(c, rt.fn, ci, key, fSCacl, rt.sent)
+				}
 			}
 		}
 		c.Floor("C07.send-guard", nSend, 2)
@@ -352,9 +356,45 @@ func syncOnlyGlobal(P *Prog, g *ssa.Global) (bool, string) {
 }
 
 // sendGuarded checks class (b) of C07.send-guard for the Send call ci in f.
-func sendGuarded(c *Ctx, f *ssa.Function, ci ssa.CallInstruction, key string, fSCacl *types.Var) {
+type sendRoot struct {
+	fn   *ssa.Function
+	sent ssa.Value
+}
+
+func sendRoots(P *Prog, f *ssa.Function, sent ssa.Value, d int) []sendRoot {
+	pr, isP := sent.(*ssa.Parameter)
+	if !isP || d > 2 || isExportedFn(f) || f.Parent() != nil {
+		return []sendRoot{{f, sent}}
+	}
+	idx := -1
+	for i, p := range f.Params {
+		if p == pr {
+			idx = i
+		}
+	}
+	var out []sendRoot
+	for _, g := range P.PkgFuncs(strings.TrimPrefix(pkgPathOf(f), modPath+"/")) {
+		if P.InTestFile(g) {
+			continue
+		}
+		for _, ci := range callsIn(g) {
+			if staticCallee(ci.Common()) == f && idx >= 0 && idx < len(ci.Common().Args) {
+				top := g
+				for top.Parent() != nil {
+					top = top.Parent()
+				}
+				out = append(out, sendRoots(P, top, unwrap(ci.Common().Args[idx]), d+1)...)
+			}
+		}
+	}
+	if len(out) == 0 {
+		return []sendRoot{{f, sent}}
+	}
+	return out
+}
+
+func sendGuarded(c *Ctx, f *ssa.Function, ci ssa.CallInstruction, key string, fSCacl *types.Var, sent ssa.Value) {
 	P := c.P
-	sent := unwrap(ci.Common().Args[0])
 	// atoms: PRENN = the update prefix of the sent response is non-nil; OK = Check(...) result
 	chainOK := func(e *PPA, st *State, v RV) bool {
 		// v must be GetPrefix(GetUpdate(sent))
